@@ -80,6 +80,45 @@ def window_cases(tier):
         for s in win(0, 7) + BIG:
             yield mk(m, V(s))
 
+def wrap(lo, hi):
+    """values that are in range only after truncation to a common integer width: v + s*2^w for v at
+    the ends and the middle of the field, w in 8, 16, 32, s in +1, -1, +2 (a cast before the range check
+    lets exactly these through)"""
+    vs = sorted({lo, lo + 1, (lo + hi) // 2, hi - 1, hi, 0 if lo <= 0 <= hi else lo})
+    return [v + sgn * (1 << w) for v in vs for w in (8, 16, 32) for sgn in (1, -1, 2)]
+
+def wrap_cases(tier):
+    for m in E.IMM: 
+        for k in wrap(-128, 255): yield mk(m, R(17), V(k))
+    for m in ('adiw', 'sbiw'):
+        for k in wrap(0, 63): yield mk(m, R(26), V(k))
+    for m in ('rjmp', 'rcall'):
+        for d in wrap(-2048, 2047): yield mk(m, V(d + 1))
+    for b in E.BRANCHES:
+        for d in wrap(-64, 63): yield mk('br' + b, V(d + 1))
+    for m in ('brbs', 'brbc'):
+        for d in wrap(-64, 63): yield mk(m, V(1), V(d + 1))
+        for s_ in wrap(0, 7): yield mk(m, V(s_), V(3))
+    for k in wrap(0, 65535):
+        yield mk('lds', R(9), V(k)); yield mk('sts', V(k), R(9))
+    for k in wrap(0x40, 0xbf):
+        yield mk('lds', R(17), V(k), core=1, dev='ATtiny20'); yield mk('sts', V(k), R(17), core=1, dev='ATtiny20')
+    for m in ('jmp', 'call'):
+        for k in wrap(0, 4194303) + [4194304 + 5, 2**22 + 2**16, 2**32 + 7]: yield mk(m, V(k))
+    for p in 'YZ':
+        for q in wrap(0, 63):
+            yield mk('ldd', R(4), ('%s+%s' % (p, E.num(q)), 'i%s+q%d' % (p, q)) if q >= 0 else ('%s+(%d)' % (p, q), 'i%s+q%d' % (p, q)))
+            yield mk('std', ('%s+%s' % (p, E.num(q)), 'i%s+q%d' % (p, q)) if q >= 0 else ('%s+(%d)' % (p, q), 'i%s+q%d' % (p, q)), R(4))
+    for a in wrap(0, 63):
+        yield mk('in', R(16), V(a)); yield mk('out', V(a), R(16))
+    for m in E.REGBIT:
+        for b in wrap(0, 7): yield mk(m, R(5), V(b))
+    for m in E.IOBIT:
+        for a in wrap(0, 31): yield mk(m, V(a), V(2))
+        for b in wrap(0, 7): yield mk(m, V(5), V(b))
+    for m in ('bset', 'bclr'):
+        for s_ in wrap(0, 7): yield mk(m, V(s_))
+
 def symbolic_cases(tier):
     """registers through .def aliases (all 32 in each position), values through .equ symbols and
     compound expressions at and around the range ends"""
@@ -159,7 +198,7 @@ def judge_device(cases, vio):
     return [v for v in vio if not (v['source'].startswith('.device') and v['what'].startswith('valid instruction') and v['impl'].startswith('ERR'))]
 
 def run(tier, seed, model_ok):
-    cases = list(window_cases(tier)) + list(confusion_cases(tier)) + list(symbolic_cases(tier))
+    cases = list(window_cases(tier)) + list(wrap_cases(tier)) + list(confusion_cases(tier)) + list(symbolic_cases(tier))
     dis, vio = E.run_enc(cases, model_ok, 'C04')
     vio = judge_device(cases, vio)
     import subprocess
@@ -167,7 +206,7 @@ def run(tier, seed, model_ok):
     illegal = None
     return {
         'evaluations': len(cases), 'distinct_nontrivial': len({c.src for c in cases}),
-        'rule': 'every mnemonic x all registers 0..31 in each register position x every value in [lo-130, hi+130] of each value field (plus the byte-wrap zone 250..330 and i64 extremes), all index forms incl. X/Y/Z displacements in the window; every mnemonic x every list of 0..3 operands over the kinds register/value/index (kind and count confusions), default core and ATtiny20; the register/value families again with every register written through a .def alias (all 32 in each position) and values through .equ symbols / compound expressions at the range ends; distinct = distinct source texts',
+        'rule': 'every mnemonic x all registers 0..31 in each register position x every value in [lo-130, hi+130] of each value field (plus the byte-wrap zone 250..330, i64 extremes, and for every value field the values that come into range only after truncation to 8, 16 or 32 bits: v ± 2^w, v + 2·2^w), all index forms incl. X/Y/Z displacements in the window; every mnemonic x every list of 0..3 operands over the kinds register/value/index (kind and count confusions), default core and ATtiny20; the register/value families again with every register written through a .def alias (all 32 in each position) and values through .equ symbols / compound expressions at the range ends; distinct = distinct source texts',
         'samples': [cases[0].src, cases[len(cases) // 3].src, cases[-1].src],
         'exhaustive': True,
         'distribution': {'cases_per_mnemonic_top': dist.most_common(10), 'mnemonics': len(dist)},
